@@ -16,6 +16,8 @@ def translator_validation(js, items):
         estatus = [x for x in (r.get('failed_checks') or []) if x.startswith('status:')]
         estatus = estatus[0][7:] if estatus else '?'
         nat = js.native(job, tv_seed=seed, expect_obs=eobs if estatus == 'ok' else None)
+        engine_only = ('C06 memory belongs', 'C06 extent lies', 'C06 pointer-bearing', 'C06 typed allocation')
+        efail = [x for x in efail if not x.startswith(engine_only)]
         nfail = sorted(set(nat['failed']))
         if nat['panic'] and 'assumeFailed' in nat['panic']:
             if estatus == 'infeasible':
